@@ -89,7 +89,8 @@ def nt_long(tr):
 
 
 reg("C01", exc_ops=WRITE_OPS, nontrivial=nt_pages,
-    weights={"AddPage": 25, "AddPages": 14, "AddLinks": 14, "IndexBatchCrawl": 12},
+    weights={"AddPage": 25, "AddPages": 14, "AddLinks": 14, "IndexBatchCrawl": 16},
+    profile={"longfirst": 0.45, "mutual": 0.3}, n=(150, 1500),
     title="Page set fidelity")
 reg("C02", exc_ops=ALL_OPS, nontrivial=nt_pages, hook="lookup", mc=[("core", 4, 5), ("bst", 5, 6)],
     gen_mc=("core", "bst"),
@@ -111,8 +112,8 @@ reg("C05", exc_ops=set(), nontrivial=nt_we, hook="wepages", obs_fail=True,
 reg("C06", exc_ops=WRITE_OPS | RULE_OPS, nontrivial=nt_we, hook="potential",
     mc=[("core", 4, 5), ("we", 4, 5), ("wesub", 0, 5)],
     gen_mc="we",
-    weights={"AddRule": 14, "RemoveRule": 4, "AddPage": 25, "DeleteWe": 8},
-    profile={"raw": 0.0, "long": 0.15, "adversarial": 0.4}, title="Automatic creation")
+    weights={"AddRule": 14, "RemoveRule": 4, "AddPage": 25, "DeleteWe": 12},
+    profile={"raw": 0.0, "long": 0.15, "adversarial": 0.4, "redeclare": 0.8}, title="Automatic creation")
 reg("C07", exc_ops=set(), nontrivial=nt_links, hook="network", obs_fail=False,
     weights={"AddLinks": 24, "IndexBatchCrawl": 16, "CreateWe": 10, "AddPrefix": 10, "RemovePrefix": 5, "DeleteWe": 5},
     profile={"raw": 0.0, "long": 0.1, "nlrus": 12, "bigids": 0.4, "prefixlinks": 0.3, "siblinks": 0.25},
